@@ -41,9 +41,9 @@ type Stmt struct {
 	Body []Stmt `json:"body,omitempty"`
 }
 
-func Str(s string) *Expr         { return &Expr{K: "str", S: s} }
-func Num(n int) *Expr            { return &Expr{K: "num", N: n} }
-func Bool(b bool) *Expr          { return &Expr{K: "bool", B: b} }
+func Str(s string) *Expr          { return &Expr{K: "str", S: s} }
+func Num(n int) *Expr             { return &Expr{K: "num", N: n} }
+func Bool(b bool) *Expr           { return &Expr{K: "bool", B: b} }
 func Var(n string, t PType) *Expr { return &Expr{K: "var", S: n, VT: t} }
 func Un(op string, e *Expr) *Expr { return &Expr{K: "un", S: op, L: e} }
 func Bin(op string, l, r *Expr) *Expr {
